@@ -1,4 +1,5 @@
 import GramModel.Lemmas.Lexer
+import GramModel.Lemmas.LexerGaps
 
 /-!
 # C09 — tokens partition the source text exactly
@@ -130,3 +131,134 @@ example : tokenize C09_cc ['i','f',' ','é','1',' ','=',' ','0','0','7',' ','#',
     .ok [⟨.if_, 0, 2⟩, ⟨.identifier ['é', '1'], 3, 6⟩, ⟨.equals, 7, 8⟩, ⟨.integerLiteral 7, 9, 12⟩,
          ⟨.terminatorLineBreak, 16, 17⟩, ⟨.identifier ['x'], 17, 18⟩] := by decide
 example : tokenize C09_cc ['a',' ','$'] = .err [(2, 3)] := by decide
+
+/-! ## Maximal munch, blank gaps, exact errors (T2) -/
+
+/-- byte offset of the `i`-th character of a text -/
+def offsetOf (text : List Char) (i : Nat) : Nat := bytesOf (text.take i)
+
+/-- is the `i`-th character inside a comment, i.e. after a `#` on the same line (the `#` itself
+included, the terminating line feed excluded)? -/
+def inComment (text : List Char) (i : Nat) : Bool :=
+  let before := (text.take (i + 1)).reverse        -- the character itself first, then backwards
+  let line := before.takeWhile (· != '\n')
+  text[i]? != some '\n' && line.contains '#'
+
+/-- **Maximal munch**: the character right after an identifier or keyword is not a word character,
+and the character right after a number is not a digit. -/
+def C09_maximal_munch_stmt : Prop :=
+  ∀ (cc : CharClass) (text : List Char) (ts : List Tok), tokenize cc text = .ok ts →
+    ∀ t ∈ ts, ∀ (pre post : List Char) (c : Char), text = pre ++ c :: post → bytesOf pre = t.stop →
+      (match t.kind with
+       | .identifier _ | .boolean | .else_ | .false_ | .if_ | .integer | .then_ | .true_ | .type_ =>
+           identCont cc c = false
+       | .integerLiteral _ => isDigit c = false
+       | _ => True)
+theorem C09_maximal_munch : C09_maximal_munch_stmt := by
+  intro cc text ts h t ht pre post c htext hpre
+  have hf := tokenize_ok h
+  have hm : t ∈ (scan0 cc text).toks :=
+    List.mem_reverse.1 ((filterToks_sublist _ _ hf).subset ht)
+  obtain ⟨p, lex, rest, h1, h2, h3⟩ := scan_shape cc text t hm
+  have hsplit : (p ++ lex) ++ rest = pre ++ c :: post := by rw [← h1, htext]
+  obtain ⟨_, hrest⟩ := bytes_prefix_unique _ _ _ _ hsplit (by rw [h2, hpre])
+  rcases h3 with ⟨_, hw, hn⟩ | ⟨c0, w, _, _, _, hnext, hk⟩ | ⟨_, hnext, hk⟩
+  · cases hkind : t.kind <;> simp_all [wordish]
+  · have hc := hnext c post hrest
+    rcases wordKind_cases lex with e | ⟨q, hq, e⟩
+    · rw [hk, e]; exact hc
+    · rw [hk, e]
+      simp only [Generated.keywords, List.mem_cons, List.not_mem_nil, or_false] at hq
+      rcases hq with rfl | rfl | rfl | rfl | rfl | rfl | rfl | rfl <;> exact hc
+  · rw [hk]; exact hnext c post hrest
+
+/-- **Only whitespace and comments between tokens**: a character that lies in no token's range is
+whitespace, a line feed, or inside a comment. -/
+def C09_gaps_blank_stmt : Prop :=
+  ∀ (cc : CharClass) (text : List Char) (ts : List Tok), tokenize cc text = .ok ts →
+    ∀ (i : Nat) (c : Char), text[i]? = some c →
+      (∀ t ∈ ts, ¬ (t.start ≤ offsetOf text i ∧ offsetOf text i < t.stop)) →
+      cc.isWs c = true ∨ c = '\n' ∨ inComment text i = true
+theorem C09_gaps_blank : C09_gaps_blank_stmt := by
+  intro cc text ts h i c hic hno
+  obtain ⟨he, hf⟩ := tokenize_ok' h
+  rcases scan_cov cc text he i c hic with ⟨t, ht, h1, h2, h3⟩ | h | h | h
+  · rcases filterToks_dropped _ _ hf t (List.mem_reverse.2 ht) with hin | hlb
+    · exact absurd ⟨h1, h2⟩ (hno t hin)
+    · exact Or.inr (Or.inl (h3 hlb))
+  · exact Or.inl h
+  · exact Or.inr (Or.inl h)
+  · exact Or.inr (Or.inr h)
+
+/-- **No token inside a comment**: a comment really runs to the end of its line. -/
+def C09_no_token_in_comment_unrestricted : Prop :=
+  ∀ (cc : CharClass) (text : List Char) (ts : List Tok), tokenize cc text = .ok ts →
+    ∀ (i : Nat), inComment text i = true → ∀ t ∈ ts, ¬ (t.start ≤ offsetOf text i ∧ offsetOf text i < t.stop)
+
+/-- `C09_no_token_in_comment_unrestricted` is FALSE as stated (PENDING, not claimed): it quantifies over
+every classifier, including ones that make `#` a word character.  With `isAlphabetic '#'` the text
+`#` is one identifier token, yet position 0 counts as "inside a comment". -/
+def C09_cc_hashAlpha : CharClass :=
+  { isAlpha := fun c => ('a' ≤ c ∧ c ≤ 'z') || c == '#'
+    isAlnum := fun c => ('a' ≤ c ∧ c ≤ 'z') || ('0' ≤ c ∧ c ≤ '9')
+    isWs := fun c => c == ' '
+    graphemeEnd := fun p => p + 1 }
+theorem C09_no_token_in_comment_refuted : ¬ C09_no_token_in_comment_unrestricted := by
+  intro h
+  exact h C09_cc_hashAlpha ['#'] [⟨.identifier ['#'], 0, 1⟩] (by decide) 0 (by decide) _
+    (List.mem_singleton.2 rfl) (by decide)
+
+/-- `cc.Sane` alone is not enough either: it says nothing about `identCont cc '#'`.  With
+`isAlphanumeric '#'` (and a sane classifier otherwise) `a#b` is one identifier token. -/
+def C09_cc_hashCont : CharClass :=
+  { isAlpha := fun c => ('a' ≤ c ∧ c ≤ 'z')
+    isAlnum := fun c => ('a' ≤ c ∧ c ≤ 'z') || ('0' ≤ c ∧ c ≤ '9') || c == '#'
+    isWs := fun c => c == ' ' || c == '\t'
+    graphemeEnd := fun p => p + 1 }
+theorem C09_no_token_in_comment_sane_refuted :
+    ¬ (∀ (cc : CharClass) (text : List Char) (ts : List Tok), cc.Sane → tokenize cc text = .ok ts →
+      ∀ (i : Nat), inComment text i = true →
+        ∀ t ∈ ts, ¬ (t.start ≤ offsetOf text i ∧ offsetOf text i < t.stop)) := by
+  intro h
+  exact h C09_cc_hashCont ['a', '#', 'b'] [⟨.identifier ['a', '#', 'b'], 0, 3⟩]
+    (by constructor <;> decide) (by decide) 2 (by decide) _ (List.mem_singleton.2 rfl) (by decide)
+
+/-- **No token inside a comment** (corrected): for a classifier under which `#` is neither a word
+character (start or continuation) nor whitespace, a comment really runs to the end of its line. -/
+def C09_no_token_in_comment_fixed_stmt : Prop :=
+  ∀ (cc : CharClass) (text : List Char) (ts : List Tok), cc.Sane → identCont cc '#' = false →
+    tokenize cc text = .ok ts →
+    ∀ (i : Nat), inComment text i = true → ∀ t ∈ ts, ¬ (t.start ≤ offsetOf text i ∧ offsetOf text i < t.stop)
+theorem C09_no_token_in_comment_fixed : C09_no_token_in_comment_fixed_stmt := by
+  intro cc text ts hs hcont h i hi t ht
+  have hf := tokenize_ok h
+  have hm : t ∈ (scan0 cc text).toks :=
+    List.mem_reverse.1 ((filterToks_sublist _ _ hf).subset ht)
+  exact scan_no_token_in_comment cc ⟨hs.hash_plain.1, hs.hash_plain.2, hcont⟩ text t hm i hi
+
+/-- **Every unexpected symbol is reported, and nothing else**: on failure the reported ranges
+start, in order, exactly at the characters that are outside comments and belong to no token class
+(not a symbol character, not a word character, not a digit, not whitespace, not `#`). -/
+def unexpectedAt (cc : CharClass) (text : List Char) (i : Nat) : Bool :=
+  match text[i]? with
+  | none => false
+  | some c =>
+      !inComment text i && !(symbolChars.contains c) && !(identStart cc c) && !(isDigit c)
+        && !(cc.isWs c) && c != '#'
+
+def C09_errors_exact_stmt : Prop :=
+  ∀ (cc : CharClass) (text : List Char) (es : List (Nat × Nat)), cc.Sane →
+    (∀ c, identCont cc c = true → identStart cc c = true ∨ isDigit c = true) →
+    tokenize cc text = .err es →
+    es.map (·.1) = ((List.range text.length).filter (unexpectedAt cc text)).map (offsetOf text)
+theorem C09_errors_exact : C09_errors_exact_stmt := by
+  intro cc text es hs hcont h
+  have hp : HashPlain cc := ⟨hs.hash_plain.1, hs.hash_plain.2, by
+    cases hc : identCont cc '#' with
+    | false => rfl
+    | true =>
+      rcases hcont _ hc with h | h
+      · rw [hs.hash_plain.1] at h; cases h
+      · exact absurd h (by decide)⟩
+  rw [tokenize_err h]
+  exact scan_errors cc hp hcont text
